@@ -45,7 +45,6 @@ package keeper
 // ResetMetaDuration recomputes the model's lifetime from its completed shards and reschedules its deletion
 //@ func (Keeper) ResetMetaDuration(ctx, meta)
 //@   requires meta != nil
-//@   requires forall h int :: 0 <= h && h <= MaxUint64 && has(ExpiredData, h) ==> ExpiredData[h].Height == h
 //@   requires [C11.sched.once] has(ExpiredData, u64(meta.CreatedAt + meta.Duration)) ==> forall i int, j int :: 0 <= i && i < j && j < len(ExpiredData[u64(meta.CreatedAt + meta.Duration)].Data)
 //@         ==> !(ExpiredData[u64(meta.CreatedAt + meta.Duration)].Data[i] == meta.DataId && ExpiredData[u64(meta.CreatedAt + meta.Duration)].Data[j] == meta.DataId)
 //@   requires meta.CreatedAt + meta.Duration <= MaxUint64
@@ -63,7 +62,6 @@ package keeper
 // together with its alias if it never had one.
 //@ func (Keeper) RollbackMeta(ctx, dataId)
 //@   requires has(Metadata, dataId) ==> Metadata[dataId].DataId == dataId && Metadata[dataId].CreatedAt + Metadata[dataId].Duration <= MaxUint64
-//@   requires forall h int :: 0 <= h && h <= MaxUint64 && has(ExpiredData, h) ==> ExpiredData[h].Height == h
 //@   requires [C11.sched.unique] has(Metadata, dataId) ==> forall h int :: 0 <= h && h <= MaxUint64 && has(ExpiredData, h) && contains(ExpiredData[h].Data, dataId) ==> h == u64(Metadata[dataId].CreatedAt + Metadata[dataId].Duration)
 //@   requires [C11.sched.once] has(Metadata, dataId) && has(ExpiredData, u64(Metadata[dataId].CreatedAt + Metadata[dataId].Duration)) ==>
 //@       forall i int, j int :: 0 <= i && i < j && j < len(ExpiredData[u64(Metadata[dataId].CreatedAt + Metadata[dataId].Duration)].Data)
@@ -84,7 +82,6 @@ package keeper
 //@ func (Keeper) CancelOrder(ctx, orderId) (err)
 //@   requires has(Order, orderId) && has(Metadata, Order[orderId].DataId) ==> Metadata[Order[orderId].DataId].DataId == Order[orderId].DataId
 //@       && Metadata[Order[orderId].DataId].CreatedAt + Metadata[Order[orderId].DataId].Duration <= MaxUint64
-//@   requires forall h int :: 0 <= h && h <= MaxUint64 && has(ExpiredData, h) ==> ExpiredData[h].Height == h
 //@   requires [C11.sched.unique] has(Order, orderId) && has(Metadata, Order[orderId].DataId) ==> forall h int :: 0 <= h && h <= MaxUint64 && has(ExpiredData, h) && contains(ExpiredData[h].Data, Order[orderId].DataId)
 //@         ==> h == u64(Metadata[Order[orderId].DataId].CreatedAt + Metadata[Order[orderId].DataId].Duration)
 //@   requires [C11.sched.once] has(Order, orderId) && has(Metadata, Order[orderId].DataId) && has(ExpiredData, u64(Metadata[Order[orderId].DataId].CreatedAt + Metadata[Order[orderId].DataId].Duration)) ==>
@@ -109,20 +106,13 @@ package keeper
 // TerminateOrder: settle one completed order of a model: market refund, release of the order's own completed shards,
 // refund to the owner, removal of the order record. Shard records and the model itself are not touched here.
 //@ func (Keeper) TerminateOrder(ctx, order) (err)
-//@   requires forall w string :: has(Worker, w) ==> Worker[w].Workername == w
-//@   requires forall c string :: has(Pledge, c) ==> Pledge[c].Creator == c
-//@   requires forall c string :: has(PledgeDebt, c) ==> PledgeDebt[c].Sp == c && PledgeDebt[c].Debt.Amount >= 0
-//@   requires forall i int :: 0 <= i && i <= MaxUint64 && has(Shard, i) ==> Shard[i].Id == i && Shard[i].Pledge.Amount >= 0
-//@   requires forall c string :: has(DidBalances, c) ==> DidBalances[c].Did == c
+//@   requires forall c string :: has(PledgeDebt, c) ==> PledgeDebt[c].Debt.Amount >= 0
+//@   requires forall i int :: 0 <= i && i <= MaxUint64 && has(Shard, i) ==> Shard[i].Pledge.Amount >= 0
 //@   modifies Worker, Pledge, PledgeDebt, Bank, Order[order.Id], DidBalances
-//@   ensures [C09.terminateorder.repinv.w] forall w string :: has(Worker, w) ==> Worker[w].Workername == w
-//@   ensures [C09.terminateorder.repinv.p] forall c string :: has(Pledge, c) ==> Pledge[c].Creator == c
-//@   ensures [C09.terminateorder.repinv.d] forall c string :: has(PledgeDebt, c) ==> PledgeDebt[c].Sp == c && PledgeDebt[c].Debt.Amount >= 0
-//@   ensures [C09.terminateorder.repinv.b] forall c string :: has(DidBalances, c) ==> DidBalances[c].Did == c
+//@   ensures [C09.terminateorder.repinv.d] forall c string :: has(PledgeDebt, c) ==> PledgeDebt[c].Debt.Amount >= 0
 //@   ensures [C04.terminateorder.removed] err == nil ==> !has(Order, order.Id)
 //@   loop L1 invariant -1 <= rangeindex
-//@   loop L1 invariant forall c string :: has(Pledge, c) ==> Pledge[c].Creator == c
-//@   loop L1 invariant forall c string :: has(PledgeDebt, c) ==> PledgeDebt[c].Sp == c && PledgeDebt[c].Debt.Amount >= 0
+//@   loop L1 invariant forall c string :: has(PledgeDebt, c) ==> PledgeDebt[c].Debt.Amount >= 0
 //@   loop L1 invariant Order[order0.Id] == old(Order[order0.Id]) && (has(Order, order0.Id) <==> old(has(Order, order0.Id)))
 
 // DeleteMeta removes a data model and its alias
@@ -133,13 +123,9 @@ package keeper
 
 // UpdateMeta applies a completed order to its data model: new version (1), force-push replacing the latest version (2), renewal (3).
 //@ func (Keeper) UpdateMeta(ctx, order) (err)
-//@   requires forall w string :: has(Worker, w) ==> Worker[w].Workername == w
-//@   requires forall c string :: has(Pledge, c) ==> Pledge[c].Creator == c
-//@   requires forall c string :: has(PledgeDebt, c) ==> PledgeDebt[c].Sp == c && PledgeDebt[c].Debt.Amount >= 0
-//@   requires forall i int :: 0 <= i && i <= MaxUint64 && has(Shard, i) ==> Shard[i].Id == i && Shard[i].Pledge.Amount >= 0
-//@   requires forall c string :: has(DidBalances, c) ==> DidBalances[c].Did == c
-//@   requires forall c string :: has(Metadata, c) ==> Metadata[c].DataId == c && Metadata[c].CreatedAt + Metadata[c].Duration <= MaxUint64
-//@   requires forall h int :: 0 <= h && h <= MaxUint64 && has(ExpiredData, h) ==> ExpiredData[h].Height == h
+//@   requires forall c string :: has(PledgeDebt, c) ==> PledgeDebt[c].Debt.Amount >= 0
+//@   requires forall i int :: 0 <= i && i <= MaxUint64 && has(Shard, i) ==> Shard[i].Pledge.Amount >= 0
+//@   requires forall c string :: has(Metadata, c) ==> Metadata[c].CreatedAt + Metadata[c].Duration <= MaxUint64
 //@   requires [C11.sched.once] has(Metadata, order.DataId) && has(ExpiredData, u64(Metadata[order.DataId].CreatedAt + Metadata[order.DataId].Duration)) ==>
 //@       forall i int, j int :: 0 <= i && i < j && j < len(ExpiredData[u64(Metadata[order.DataId].CreatedAt + Metadata[order.DataId].Duration)].Data)
 //@         ==> !(ExpiredData[u64(Metadata[order.DataId].CreatedAt + Metadata[order.DataId].Duration)].Data[i] == order.DataId && ExpiredData[u64(Metadata[order.DataId].CreatedAt + Metadata[order.DataId].Duration)].Data[j] == order.DataId)
@@ -160,10 +146,7 @@ package keeper
 //@   loop L1 invariant -1 <= rangeindex && rangeindex < len(metadata.ReadwriteDids)
 //@   loop L1 invariant forall j int :: 0 <= j && j <= rangeindex ==> metadata.ReadwriteDids[j] != order0.Owner
 //@   loop L2 frameexcept metadata
-//@   loop L2 invariant forall w string :: has(Worker, w) ==> Worker[w].Workername == w
-//@   loop L2 invariant forall c string :: has(Pledge, c) ==> Pledge[c].Creator == c
-//@   loop L2 invariant forall c string :: has(PledgeDebt, c) ==> PledgeDebt[c].Sp == c && PledgeDebt[c].Debt.Amount >= 0
-//@   loop L2 invariant forall c string :: has(DidBalances, c) ==> DidBalances[c].Did == c
+//@   loop L2 invariant forall c string :: has(PledgeDebt, c) ==> PledgeDebt[c].Debt.Amount >= 0
 //@   loop L2 invariant metadata.Owner == entry(metadata.Owner) && metadata.DataId == entry(metadata.DataId) && metadata.Commits == entry(metadata.Commits) && metadata.Commit == entry(metadata.Commit)
 //@       && metadata.ReadonlyDids == entry(metadata.ReadonlyDids) && metadata.ReadwriteDids == entry(metadata.ReadwriteDids) && metadata.CreatedAt == entry(metadata.CreatedAt)
 //@       && metadata.Duration == entry(metadata.Duration)
@@ -176,7 +159,6 @@ package keeper
 
 // NewMeta registers a new data model with its alias and schedules its deletion at the end of the paid term
 //@ func (Keeper) NewMeta(ctx, order, metadata) (err)
-//@   requires forall h int :: 0 <= h && h <= MaxUint64 && has(ExpiredData, h) ==> ExpiredData[h].Height == h
 //@   modifies Metadata[metadata.DataId], Model[sprintf("%s-%s-%s", metadata.Owner, metadata.Alias, metadata.GroupId)], ExpiredData[u64(order.CreatedAt + order.Duration)]
 //@   ensures [C09.newmeta.fresh] err == nil ==> !old(has(Metadata, metadata.DataId)) && has(Metadata, metadata.DataId) && Metadata[metadata.DataId] == metadata
 //@   ensures [C13.newmeta.alias] err == nil ==> !old(has(Model, sprintf("%s-%s-%s", metadata.Owner, metadata.Alias, metadata.GroupId)))
@@ -186,7 +168,6 @@ package keeper
 
 // UpdateMetaStatusAndCommit marks an update of an existing model as in flight
 //@ func (Keeper) UpdateMetaStatusAndCommit(ctx, order) (err)
-//@   requires forall h int :: 0 <= h && h <= MaxUint64 && has(ExpiredData, h) ==> ExpiredData[h].Height == h
 //@   requires has(Metadata, order.DataId) ==> Metadata[order.DataId].DataId == order.DataId && Metadata[order.DataId].CreatedAt + Metadata[order.DataId].Duration <= MaxUint64
 //@   requires [C11.sched.once] has(Metadata, order.DataId) && has(ExpiredData, u64(Metadata[order.DataId].CreatedAt + Metadata[order.DataId].Duration)) ==>
 //@       forall i int, j int :: 0 <= i && i < j && j < len(ExpiredData[u64(Metadata[order.DataId].CreatedAt + Metadata[order.DataId].Duration)].Data)
